@@ -111,11 +111,13 @@ class GraphQLArgument:
         """
         self.graphql_type = get_graphql_type(schema, self.gql_type)
 
-        if isinstance(self.gql_type, GraphQLType):
-            self.type = self.gql_type
-        else:
-            self.type["name"] = self.gql_type
-            self.type["kind"] = self.graphql_type.kind
+        # Introspection attribute: the named type itself (not a name / kind
+        # stub), as for wrapped types and for the type of a field
+        self.type = (
+            self.gql_type
+            if isinstance(self.gql_type, GraphQLType)
+            else self.graphql_type
+        )
 
         self.defaultValue = (
             str(self.default_value) if self.default_value is not None else None
